@@ -182,6 +182,21 @@ func c11sGen(r *verifh.Rng) []verifh.Section {
 		}
 		secs = append(secs, verifh.Section{Cfg: fmt.Sprintf("kind=sqlx max=%d hook=0", maxBulkRows), Ops: ops})
 	}
+	// scripted: every outcome of Exec (ok / error / panic) with every kind of result handler (none / counting / panicking
+	// / nil again), a partial batch and a threshold batch each; a rejected Insert in between
+	{
+		ops := []string{"new 0 1"}
+		for _, h := range []string{"", "hand 0", "handp 0", "unhand 0"} {
+			if h != "" {
+				ops = append(ops, h)
+			}
+			for m := 0; m < 3; m++ {
+				ops = append(ops, fmt.Sprintf("mode 0 %d", m), "ins 0 2", "insx 0", "flush 0", fmt.Sprintf("ins 0 %d", maxBulkRows+1), "wait 0")
+			}
+		}
+		ops = append(ops, "mode 0 0", "ins 0 1", "wait 0")
+		secs = append(secs, verifh.Section{Cfg: fmt.Sprintf("kind=sqlx max=%d hook=0", maxBulkRows), Ops: ops})
+	}
 	// scripted + random: a batch that has been handed out but not yet joined into SQL, rows inserted meanwhile
 	for i := verifh.Scale(3, 12); i > 0; i-- {
 		s := r.Pick(0, 1, 3)
